@@ -28,10 +28,10 @@ UNIT = {
 # seq properties: generator profiles (profile, ops), the difference classes that count for the
 # property (model focus) and the classes of the Python reference that decide a violation
 SEQ = {
-    "C02": dict(focus=["kv"], classes=["kv"], profiles=["mixed", "binary", "layers", "fanout", "drain", "long", "splitpoint"]),
+    "C02": dict(focus=["kv"], classes=["kv"], profiles=["mixed", "binary", "layers", "fanout", "drain", "long", "splitpoint", "prefixfan", "isplitpoint"]),
     "C03": dict(focus=["scan"], classes=["scan"], profiles=["layers", "mixed", "binary", "fanout", "long"]),
     "C05": dict(focus=["scannv", "getnv", "dump", "phantom"], classes=["scannv", "getnv", "phantom"], profiles=["layers", "mixed", "fanout", "binary"]),
-    "C08": dict(focus=["dump", "walker", "shape"], classes=["walker", "kv", "scan", "iscan"], profiles=["fanout", "drain", "layers", "mixed", "binary", "splitpoint"]),
+    "C08": dict(focus=["dump", "walker", "shape"], classes=["walker", "kv", "scan", "iscan"], profiles=["fanout", "drain", "layers", "mixed", "binary", "splitpoint", "prefixfan", "isplitpoint"]),
     "C10": dict(focus=["iscan"], classes=["iscan"], profiles=["layers", "mixed", "binary", "fanout", "long"]),
     "C11": dict(focus=["balance"], classes=["balance"], profiles=["mixed", "drain", "layers", "long", "cycles"]),
     "C16": dict(focus=["session", "storage", "balance"], classes=["cycle", "session", "storage", "balance", "kv"], profiles=["cycles"]),
@@ -39,7 +39,7 @@ SEQ = {
     "C13": dict(focus=["storage"], classes=["storage"], profiles=["mixed", "binary"]),
     "C20": dict(focus=["mem", "dump"], classes=["mem"], profiles=["fanout", "layers", "mixed", "long", "drain"]),
     # the comparison sites of C18 that only run inside a split (side decision, separator choice)
-    "C18": dict(focus=["kv", "dump", "walker"], classes=["kv", "scan", "walker"], profiles=["splitpoint"]),
+    "C18": dict(focus=["kv", "dump", "walker"], classes=["kv", "scan", "walker"], profiles=["splitpoint", "isplitpoint"]),
 }
 
 # concurrent properties: workload kinds for the scheduler harness and the failure classes of
@@ -177,7 +177,9 @@ def seq_plan(prop, tier, seed):
     plan = []
     for p in spec["profiles"]:
         # the slow profiles (deep layer chains, long drains) get fewer sequences
-        n = per if p not in ("long", "drain") else max(2, per // 3)
+        n = per if p not in ("long", "drain", "prefixfan", "isplitpoint") else max(2, per // 3)
+        if p == "isplitpoint":
+            n = max(3, per // 2)
         if p == "splitpoint":
             n = per * 5   # short sequences; the interesting case is one cell of a small product
 
